@@ -56,10 +56,15 @@ LEnd == /\ lst \in {"asked", "gotfields"} /\ Recv("end") /\ lst' = "ended"
         /\ lerr' = (Head(chan).d = "error")
         /\ UNCHANGED <<fst, sent, ferr, sql>>
 
+\* the connection to the follower is gone (a registered handler whose follower has
+\* given up waiting): the handler returns an error of its own
+LFail == /\ lst \in {"asked", "gotfields"} /\ lst' = "ended" /\ lerr' = TRUE
+         /\ UNCHANGED <<fst, chan, sent, got, ferr, sql>>
+
 Next == \/ \E q \in Digests : LQuery(q) \/ FQuery(q)
         \/ \E d \in Digests : FFields(d) \/ FRow(d)
         \/ \E e \in BOOLEAN : FEnd(e)
-        \/ LFields \/ LRow \/ LEnd
+        \/ LFields \/ LRow \/ LEnd \/ LFail
 Spec == Init /\ [][Next]_vars
 
 ----------------------------------------------------------------------------
@@ -72,6 +77,6 @@ WellFormed == \A i \in 1..Len(sent) :
                  /\ (sent[i].kind = "row" => i > 1 /\ sent[1].kind = "fields")
                  /\ (sent[i].kind = "end" => i = Len(sent))
 \* a failure of the follower is reported by the leader's handler (C13 over rpc)
-ErrorReported == lst = "ended" => (lerr = ferr /\ got = sent)
+ErrorReported == lst = "ended" => (lerr \/ (~ferr /\ fst = "ended" /\ got = sent))
 QueryIntact == fst # "idle" => sql.rcvd = sql.sent
 =============================================================================
